@@ -9,6 +9,8 @@ pub struct C10;
 
 /// crash points of one scenario are spread over this many jobs
 const SLICES: u64 = 8;
+/// timed aborts per slice
+const TIMED: u64 = 4;
 
 fn scenario_for(base: u64, scen: u64, small: bool) -> (Scenario, usize, Vec<String>) {
     let mut rng = Rng::new(crate::rng::mix(&[base, scen, 0xc10]));
@@ -160,7 +162,9 @@ impl Property for C10 {
          redo processes (open/create, write to the database and its WAL, rename, unlink, lock, fork, \
          exec, exit); then for every k in 0..M and scope in {that process, whole tree} the same \
          schedule is replayed and SIGKILL delivered immediately before call k (all k enumerated, \
-         spread over 8 jobs per scenario); oracle: the following plain `redo-ifchange` terminates, \
+         spread over 8 jobs per scenario); in addition 32 timed aborts per scenario: SIGKILL to the \
+         command's process group at scheduling steps spread evenly over the recorded run (scripts \
+         running, redo waiting); oracle: the following plain `redo-ifchange` terminates, \
          exits 0, leaves every target equal to the from-scratch evaluator, prints no override warning \
          and leaves no temp file; after a further source edit the rebuild again yields fresh targets; \
          non-trivial = the kill fired; distinct = (scenario, crash point, scope)"
@@ -212,6 +216,22 @@ impl Property for C10 {
                 v.push(c);
             }
         }
+        // timed aborts: SIGKILL to the command's process group at moments
+        // spread evenly over the recorded run, whatever the processes are
+        // doing then (typically: a script is running and redo waits for it,
+        // which no crash point *before a call of a redo process* covers)
+        let steps = first.groups.iter().find(|g| g.step_idx == bg).map(|g| g.steps).unwrap_or(0);
+        if steps > 0 {
+            for j in 0..TIMED {
+                let at = (j * SLICES + slice) * steps / (TIMED * SLICES);
+                let mut c = case.clone();
+                c.opts.kill_cmd_at = Some((bg, 0, at));
+                c.opts.record_events = true;
+                c.meta.insert("crash_point".into(), serde_json::json!(format!("step {}", at)));
+                c.meta.insert("of".into(), serde_json::json!(steps));
+                v.push(c);
+            }
+        }
         v
     }
     fn nontrivial(&self, case: &Case, rec: &RunRecord) -> bool {
@@ -222,9 +242,10 @@ impl Property for C10 {
     }
     fn signature(&self, case: &Case, _rec: &RunRecord) -> u64 {
         crate::rng::hash_str(&format!(
-            "{:?}{:?}",
+            "{:?}{:?}{:?}",
             case.meta.get("scenario"),
-            case.opts.kill_at
+            case.opts.kill_at,
+            case.opts.kill_cmd_at
         ))
     }
     fn check(&self, case: &Case, rec: &RunRecord, _obs: &dyn Observer) -> Vec<Violation> {
@@ -243,6 +264,7 @@ impl Property for C10 {
             .and_then(|g| g.kill_fired.clone());
         let what = match (&fired, case.opts.kill_at) {
             (Some(f), Some((_, k, _))) => format!("after {} (crash point {} of {})", f, k, case.meta.get("of").cloned().unwrap_or_default()),
+            (Some(f), None) if case.opts.kill_cmd_at.is_some() => format!("after {} (timed abort, run of {} steps)", f, case.meta.get("of").cloned().unwrap_or_default()),
             _ => "without a kill".to_string(),
         };
         for g in rec.groups.iter().filter(|g| g.step_idx > bg) {
